@@ -12,7 +12,7 @@ SPEC = {'level': 'exploration',
  'stages': [gen('vh_c14', 'c14_parallel', 360, 6000, min_cases_quick=120, replays_needed=2, replays_total=5,
                 floors={'workers>=2': 0.4, 'fetchers>=2': 0.3, 'bad-script-after-first-batch': 0.08, 'defect:none': 0.2, 'defect:missing-input': 0.03},
                 rule='block sequences under (workers, fetchers, scheduler thread) vs serial run; non-trivial = >=2 script workers and a >=4-tx block valid or with its defect after the first tx'),
-            gen('vh_c14', 'c14_overlay', 24000, 400000, min_cases_quick=6000, replays_needed=2, replays_total=5,
+            gen('vh_c14', 'c14_overlay', 6400, 200000, min_cases_quick=2000, replays_needed=2, replays_total=5,
                 floors={'flushed': 0.15, 'reset': 0.3, 'threads=2-4': 0.2, 'threads=8+': 0.08, 'missing-input-path': 0.1},
                 rule='CoinsViewOverlay vs std::map model of direct lookups; non-trivial = >=2 fetch threads and >=6 look-ups'),
             gen('vh_c14', 'c14_parallel_tsan', 64, 1600, cfg='tsan', workers_quick=4, workers_thorough=8, min_cases_quick=24, replays_needed=2, replays_total=5,
